@@ -6,7 +6,7 @@ PID = "C18"
 MODULE, PKG, BIN = "core", "./verifh/c18", "c18"
 COQ_IMPORTS = "From Synnax Require Import Common.Base Core.Ontology Core.Rbac Monitors.Mon_C18."
 CASE_TYPE = "case_t"
-COUNTS = {"quick": 200, "thorough": 4000}
+COUNTS = {"quick": 360, "thorough": 4000}
 SHARD = 30
 HARNESS_TIMEOUT = 1500
 
